@@ -122,22 +122,6 @@ Proof.
   rewrite IH, <- app_assoc. reflexivity.
 Qed.
 
-Lemma event_eqb_refl e : event_eqb e e = true.
-Proof.
-  assert (N : forall n, Nat.eqb n n = true) by (intros; apply Nat.eqb_refl).
-  assert (B : forall b, Bool.eqb b b = true) by (intros []; reflexivity).
-  assert (O : forall o, op_eqb o o = true) by (intros [| |[]]; reflexivity).
-  assert (OS : forall o, opt_st_eqb o o = true) by (intros [x|]; cbn; auto).
-  assert (SM : forall m, smap_eqb m m = true)
-    by (induction m as [|x m IH]; cbn; [reflexivity|now rewrite OS, IH]).
-  assert (NL : forall m, natlist_eqb m m = true)
-    by (induction m as [|x m IH]; cbn; [reflexivity|now rewrite N, IH]).
-  destruct e; cbn; rewrite ?N, ?B, ?O, ?SM; try reflexivity.
-  - destruct e as [[x b]|]; cbn; rewrite ?N, ?B; reflexivity.
-  - destruct r; cbn; rewrite ?N; reflexivity.
-  - unfold snapshot_eqb. now rewrite NL, SM, B, N.
-Qed.
-
 Lemma prefixb_app a b : prefixb a (a ++ b) = true.
 Proof. induction a as [|x a IH]; cbn; [reflexivity|now rewrite event_eqb_refl, IH]. Qed.
 
